@@ -9,7 +9,7 @@ from collections import Counter
 
 from .. import history as H
 from ..common import cedge, dc, dedupe, permuted
-from ..common import nodes_with_metadata
+from ..common import nodes_with_metadata, clone_label
 from ..engine import Clause, Violation, require
 
 ASSUMPTIONS = [
@@ -134,7 +134,8 @@ def observe(h, U, probes, real):
             o["get_weight"][p] = h.get_weight(rn, p[1])
             o["edge_meta"][p] = dc(h.get_edge_metadata(rn, p[1]))
     inc, deg, mdeg, nmeta = {}, {}, {}, {}
-    for n in nodes:
+    for n0 in nodes:
+        n = clone_label(n0)   # equal label, other object: found by equality
         inc[n] = Counter(crec(e) for e in h.get_incident_edges(n))
         deg[n] = {None: h.degree(n)}
         mdeg[n] = {None: m_degree(h, n)}
@@ -305,7 +306,8 @@ def check_history(case, ctx):
 
 
 KINDS = [k for k in H.KINDS if k not in ("remove_edges", "remove_nodes", "copy",
-                                         "set_node_metadata", "set_edge_metadata")]
+                                         "set_node_metadata", "set_edge_metadata",
+                                         "rmw_node", "rmw_edge")]
 KINDS += ["set_layer_meta", "set_dataset_meta"]
 
 
